@@ -403,8 +403,10 @@ pub fn run_many(seed: u64, runs: u64, budget_ms: u64, small: bool, shard: &mut S
             break;
         }
         let cfg = gen_cfg(&mut rng, small);
-        let (_sigs, _nt) = run_once(&cfg, shard);
-        shard.evaluations += 1;
+        let (sigs, _nt) = run_once(&cfg, shard);
+        // one case = one solo operation
+        shard.evaluations += sigs.len() as u64;
+        shard.stat("scenarios", 1);
         if shard.violations.len() >= 8 || !shard.inconclusive.is_empty() {
             break;
         }
